@@ -529,15 +529,15 @@ def rule_r7(F, rep, rid="C19.R7"):
 
 
 def run(F, rep, tier):
-    rule_r1(F, rep)
-    units.rule_mix(F, rep, "C19.R2")
-    c01.rule_r3(F, rep)
-    rule_r3(F, rep)
-    rule_r4(F, rep)
-    rule_r5(F, rep)
-    rule_r6(F, rep)
-    rule_r7(F, rep)
+    rep.attempt(rule_r1, F, rep)
+    rep.attempt(units.rule_mix, F, rep, "C19.R2")
+    rep.attempt(c01.rule_r3, F, rep)
+    rep.attempt(rule_r3, F, rep)
+    rep.attempt(rule_r4, F, rep)
+    rep.attempt(rule_r5, F, rep)
+    rep.attempt(rule_r6, F, rep)
+    rep.attempt(rule_r7, F, rep)
     from . import casts
-    casts.rule(F, rep, "C06.R4")
+    rep.attempt(casts.rule, F, rep, "C06.R4")
     rep.assume("digit-exact rendering (rounding, exponent form, %g) is value-level and not decided")
     return EXPLANATION
